@@ -107,7 +107,7 @@ fuzz_target!(|data: &[u8]| {
 	copy_dir(&b.dir, &img).expect("copy");
 	let mut touched = false;
 	for (kind, a, c, d, e) in input.damage.iter().take(4) {
-		let dmg = match kind % 10 {
+		let dmg = match kind % 11 {
 			0 => Damage::Truncate(*a, *c),
 			1 | 2 => Damage::Flip(*a, *c, (*d).max(1)),
 			3 => Damage::Overwrite(*a, *c, (*d % 63) + 1, *e),
@@ -116,6 +116,7 @@ fuzz_target!(|data: &[u8]| {
 			6 => Damage::Duplicate(*a),
 			7 => Damage::SetByte(*a, *c, *d % 9),
 			8 => Damage::Forge(*a, *c, (*d >> 4) % 11, *d & 15),
+			9 => Damage::ForgeSize(*a, *c, 0x7ff0 + (*d as u16 & 15) + if *d & 16 != 0 { 0x8000 } else { 0 }),
 			_ => Damage::Swap(*a, *c),
 		};
 		let _ = apply_damage(&img, &dmg, b.info.last_enacted_record, &mut touched);
